@@ -588,11 +588,16 @@ class Mitochondria:
 
         # Boolean operations (and, or)
         elif isinstance(node, ast.BoolOp):
-            values = [self._compute_node(v) for v in node.values]
-            bool_func = self.SAFE_BOOL_OPS.get(type(node.op))
-            if bool_func is None:
+            if type(node.op) not in self.SAFE_BOOL_OPS:
                 raise ValueError(f"Unsupported boolean op: {type(node.op).__name__}")
-            return bool_func(values)
+            # Python semantics: short-circuit and return the deciding operand, not a bool
+            is_and = isinstance(node.op, ast.And)
+            result = is_and
+            for value_node in node.values:
+                result = self._compute_node(value_node)
+                if bool(result) != is_and:
+                    return result
+            return result
 
         # If expressions (ternary)
         elif isinstance(node, ast.IfExp):
